@@ -93,9 +93,9 @@ def ws2dwcv(y, nodata, llas, robust, out, lopt):
                 gamma = w_temp / (w_temp + s * ((-1 * d_eigs) ** 2))
                 r_arr = yv - y_temp
 
-                mad = np.median(
-                    np.abs(r_arr[r_weights != 0] - np.median(r_arr[r_weights != 0]))
-                )
+                # scale of the residuals of the valid cells that still carry weight
+                carry = w_temp != 0
+                mad = np.median(np.abs(r_arr[carry] - np.median(r_arr[carry])))
                 u_arr = r_arr / (1.4826 * mad * np.sqrt(1 - gamma.sum() / n))
 
                 r_weights = (1 - (u_arr / 4.685) ** 2) ** 2
